@@ -178,6 +178,24 @@ class Runner:
     def __init__(self, ck, drv):
         self.ck, self.drv, self.fail = ck, drv, {}
 
+    def guard(self, name, fn, *a, **k):
+        """the implementation may return something unusable (wrong shape, wrong type) that only trips the
+        harness later: that is an oracle failure of the implementation, not a harness crash"""
+        try:
+            return fn(*a, **k)
+        except Exception as e:
+            import traceback
+
+            from common import InfraError
+
+            if isinstance(e, InfraError):
+                raise
+            tb = traceback.extract_tb(e.__traceback__)[-1]
+            case = next((x for x in a if isinstance(x, dict)), {"what": name})
+            self.violation(f"{name}:unusable-output",
+                           f"{name}: the implementation's output could not be used ({type(e).__name__}: {str(e)[:120]} at {tb.name}:{tb.lineno})",
+                           case, 10 ** 6)
+
     def violation(self, sig, what, case, size, extra=None):
         if sig not in self.fail or size < self.fail[sig][0]:
             rep = {"case": enc(case), "replay_cmd": "./check C20 --replay <this file>"}
@@ -410,6 +428,25 @@ class Runner:
         if len(ss_l) != len(th) or len(cnt_l) != len(th):
             self.violation(f"{cls}.sufficient_statistics:shape", f"{len(ss_l)} statistics / {len(cnt_l)} counts for {len(th)} population sizes", case, n)
             return
+        # declarative: ss_g = integral over window g of C(k(t),2) dt, k(t) = #{s<t} - #{c<t}; c_g = #{coalescent times in window g}
+        breaks = sorted(case["grid"]) if kind == "skygrid" else sorted(coal)[:-1]
+        pts = sorted(set(list(samp) + list(coal) + list(breaks)))
+        want_ss = [F(0)] * len(th)
+        for a, b in zip(pts, pts[1:]):
+            mid = (a + b) / 2
+            k = sum(1 for x in samp if x < mid) - sum(1 for x in coal if x < mid)
+            gidx = sum(1 for x in breaks if x < mid)
+            if gidx < len(want_ss):
+                want_ss[gidx] += F(k * (k - 1), 2) * (b - a)
+        want_cnt = [0] * len(th)
+        for c_ in coal:
+            gi = sum(1 for x in breaks if x < c_)
+            if gi < len(want_cnt):
+                want_cnt[gi] += 1
+        if len(set(coal)) == len(coal) and ([F(v) for v in ss_l] != want_ss or [int(v) for v in cnt_l] != want_cnt):
+            self.violation(f"{cls}.sufficient_statistics:value",
+                           f"{cls}.sufficient_statistics: statistics {ss_l} / counts {cnt_l}, but the integrals of C(k,2) over the {len(th)} windows are {[float(v) for v in want_ss]} with {want_cnt} coalescent events (n={n})",
+                           case, n, {"ss": ss_l, "counts": cnt_l})
         rep_val = sum(s / t + c * math.log(t) for s, c, t in zip(ss_l, cnt_l, th))
         scale = sum(abs(s / t) + abs(c * math.log(t)) for s, c, t in zip(ss_l, cnt_l, th))
         if not close(rep_val, -lp, TOL, scale):
@@ -526,6 +563,91 @@ class Runner:
                            {"autograd": auto.tolist(), "operator": got.tolist()})
 
 
+# ----------------------------------------------------------------------------- live GMRF objects
+def gmrf_live(R, rng, n, variant, integrated=False):
+    """precision_matrix() requested, then ONE input updated through its parameter (tree node heights with no field
+    or precision reassignment, precision, field, weights), re-evaluated: the density must stay the Gaussian form of
+    the matrix published NOW and agree with a freshly built object holding the same values"""
+    import torch
+    from torchtree import Parameter
+    from torchtree.distributions.gmrf import GMRF
+    from torchtree.distributions.gmrf_integrated import GMRFGammaIntegrated
+    from torchtree.evolution.tree_model import TimeTreeModel
+
+    case = make_gmrf_case(rng, n, variant)
+    field = Parameter("field", T(case["field"]))
+    prec = Parameter("precision", T([case["tau"]]))
+    handles = {"field": field, "precision": prec}
+    tree = weights = None
+    if variant in ("T0", "T1"):
+        taxa = {f"T{i}": float(s) for i, s in enumerate(case["samp"])}
+        js = TimeTreeModel.json_factory("tree", case["newick"], [0.0] * len(case["coal"]), taxa, keep_branch_lengths=True,
+                                        internal_heights_id="internal_heights")
+        js["internal_heights"]["dtype"] = "torch.float64"
+        dic = {}
+        tree = TimeTreeModel.from_json(js, dic)
+        handles["internal_heights"] = dic["internal_heights"]
+    if variant == "W":
+        weights = Parameter("weights", T(case["weights"]))
+        handles["weights"] = weights
+    shape, rate = rng.randint(1, 24) / 8, rng.randint(1, 24) / 8
+
+    def build(field_, prec_, tree_, weights_):
+        if integrated:
+            return GMRFGammaIntegrated("g", field_, shape, rate, tree_, weights_, variant == "T1")
+        return GMRF("g", field_, prec_, tree_, weights_, variant == "T1")
+
+    g = build(field, prec, tree, weights)
+    cls = type(g).__name__
+    history = []
+    ops = ["(initial)"] + [k for k in handles if not (integrated and k == "precision")] + ["cpu"]
+    rng.shuffle(ops[1:]) if False else None
+    for step, op in enumerate(ops):
+        try:
+            if op == "field":
+                field.tensor = T([G.dy(rng, -4, 4, 3) for _ in range(n)])
+            elif op == "precision":
+                prec.tensor = T([G.pow2(rng, -3, 3)])
+            elif op == "weights":
+                weights.tensor = T([G.pow2(rng, -2, 2) for _ in range(n - 1)])
+            elif op == "internal_heights":
+                p = handles["internal_heights"]
+                p.tensor = p.tensor * 2.0 + rng.randint(0, 8) / 8  # keeps parents above children and tips
+            elif op == "cpu":
+                g.cpu()
+            history.append(op)
+            val = float(g().reshape(-1)[0])
+            Q = None if integrated else g.precision_matrix().tolist()
+            nh = tree.node_heights.detach().clone() if tree is not None else None
+            tfresh = SimpleNamespace(node_heights=nh, taxa_count=n + 1) if tree is not None else None
+            wfresh = Parameter("w", weights.tensor.detach().clone()) if weights is not None else None
+            gf = build(Parameter("f", field.tensor.detach().clone()), Parameter("p", prec.tensor.detach().clone()), tfresh, wfresh)
+            vf = float(gf().reshape(-1)[0])
+        except Exception as e:
+            R.violation(f"{cls}.live:{variant}:raises", f"{cls} ({variant}) raises after update history {history}: {type(e).__name__}: {str(e)[:120]}", case, n,
+                        {"history": history})
+            return
+        R.ck.case(key=("gmrf-live", cls, variant, n, step, tuple(history), tuple(case["field"])), bucket=f"live/{cls}/{variant}")
+        R.ck.bucket(f"live-op/{op}")
+        if not close(val, vf, 1e-11, abs(vf)):
+            R.violation(f"{cls}.__call__:stale:{variant}",
+                        f"{cls} ({variant}, length {n}) returns {val!r} after update history {history}; a freshly built object with the same values gives {vf!r}",
+                        case, n, {"history": history, "live": val, "fresh": vf})
+            continue
+        if integrated:
+            continue
+        x = [float(v) for v in field.tensor.tolist()]
+        tau = float(prec.tensor.reshape(-1)[0])
+        quad = exact_quad(Q, x)
+        dim = n - 1
+        want = dim / 2 * math.log(tau) - 0.5 * float(quad) - dim / 2 * math.log(2 * math.pi)
+        scale = abs(dim / 2 * math.log(tau)) + abs(0.5 * float(quad)) + dim
+        if not close(val, want, TOL_INT, scale):
+            R.violation(f"GMRF.precision_matrix:stale:{variant}",
+                        f"GMRF ({variant}, length {n}) after update history {history}: log density {val!r} but the Gaussian form of the matrix published now gives {want!r}",
+                        case, n, {"history": history, "impl": val, "from_published_matrix": want})
+
+
 # ----------------------------------------------------------------------------- run
 def run(ck: Check):
     use_repo()
@@ -557,9 +679,9 @@ def run(ck: Check):
             case = dec(json.loads(f.read_text())["case"])
             ck.case(key=("corpus", f.name), bucket="corpus")
             if case.get("what") == "gmrf":
-                R.gmrf(case)
+                R.guard('gmrf', R.gmrf, case)
             elif case.get("what") == "suffstats-batched":
-                R.suffstats_batched(rng, None, 0, given=case)
+                R.guard('suffstats_batched', R.suffstats_batched, rng, None, 0, given=case)
         sizes = (list(range(2, 13)) + [20, 35, 50]) if not thorough else list(range(2, 51))
         reps = 2 if not thorough else 8
         for _ in range(reps):
@@ -572,24 +694,28 @@ def run(ck: Check):
                             sample={"variant": mode, "field": [float(x) for x in case["field"]], "tau": float(case["tau"]),
                                     "weights": [float(x) for x in case.get("weights", [])]} if n <= 3 else None,
                             bucket=f"gmrf/{mode}/len{'<=5' if n <= 5 else '<=12' if n <= 12 else '<=50'}")
-                    R.gmrf(case, real_tree=(mode in ("T0", "T1") and n <= 12))
+                    R.guard('gmrf', R.gmrf, case, real_tree=(mode in ("T0", "T1") and n <= 12))
                     if n <= 12 or rng.random() < 0.3:
-                        R.gamma_integrated(rng, case, impl_in_loop=(n <= 4 and mode in ("P", "T1")))
+                        R.guard('gamma_integrated', R.gamma_integrated, rng, case, impl_in_loop=(n <= 4 and mode in ("P", "T1")))
         for n in ([2, 3, 6, 20] if not thorough else [2, 3, 4, 6, 10, 20, 50]):
             for mode in ("P", "W", "T0", "T1"):
-                R.gmrf_batched(rng, n, mode)
+                R.guard('gmrf_batched', R.gmrf_batched, rng, n, mode)
         for n in (list(range(2, 10)) + [20, 50] if not thorough else list(range(2, 51))):
-            R.constant_integrated(rng, n, impl_in_loop=(n <= 3))
+            R.guard('constant_integrated', R.constant_integrated, rng, n, impl_in_loop=(n <= 3))
         ss_sizes = (list(range(2, 13)) + [20, 35, 50]) if not thorough else list(range(2, 51))
         for _ in range(3 if not thorough else 10):
             for n in ss_sizes:
-                R.suffstats(rng, "skygrid", n)
-                R.suffstats(rng, "skyride", n)
+                R.guard('suffstats', R.suffstats, rng, "skygrid", n)
+                R.guard('suffstats', R.suffstats, rng, "skyride", n)
         for n in ([2, 3, 5, 9] if not thorough else [2, 3, 4, 5, 9, 17, 33]):
-            R.suffstats_batched(rng, "skyride", n)
-            R.suffstats_batched(rng, "skygrid", n)
+            R.guard('suffstats_batched', R.suffstats_batched, rng, "skyride", n)
+            R.guard('suffstats_batched', R.suffstats_batched, rng, "skygrid", n)
         for n in ([2, 3, 5, 8, 13] if not thorough else list(range(2, 30))):
-            R.sampler_gradient(rng, n)
+            R.guard('sampler_gradient', R.sampler_gradient, rng, n)
+        for n in ([2, 3, 5, 9] if not thorough else [2, 3, 4, 5, 7, 9, 14, 25]):
+            for variant in ("P", "W", "T0", "T1"):
+                for integrated in (False, True):
+                    R.guard('gmrf_live', gmrf_live, R, rng, n, variant, integrated)
     finally:
         if drv:
             drv.close()
@@ -620,17 +746,17 @@ def replay(path: str) -> int:
 
     rng = random.Random(0)
     if what == "gmrf":
-        R.gmrf(case)
+        R.guard('gmrf', R.gmrf, case)
     elif what == "gint":
-        R.gamma_integrated(rng, case, impl_in_loop=False)
+        R.guard('gamma_integrated', R.gamma_integrated, rng, case, impl_in_loop=False)
     elif what == "cint":
-        R.constant_integrated(rng, 0, False, given=case)
+        R.guard('constant_integrated', R.constant_integrated, rng, 0, False, given=case)
     elif what == "suffstats":
-        R.suffstats(rng, None, 0, given=case)
+        R.guard('suffstats', R.suffstats, rng, None, 0, given=case)
     elif what == "suffstats-batched":
-        R.suffstats_batched(rng, None, 0, given=case)
+        R.guard('suffstats_batched', R.suffstats_batched, rng, None, 0, given=case)
     elif what == "sampler-gradient":
-        R.sampler_gradient(rng, 0, given=case)
+        R.guard('sampler_gradient', R.sampler_gradient, rng, 0, given=case)
     else:
         print("signature:", obj.get("signature"), "-", obj.get("what"))
         print("(re-run ./check C20 to re-search this class of input)")
